@@ -435,7 +435,7 @@ func zstdDeclared(b []byte) (fcs, window uint64) {
 
 func zstdOversized(b []byte) bool {
 	fcs, window := zstdDeclared(b)
-	return fcs > 64<<20 || window > 64<<20
+	return fcs > 64<<20 || window > 8<<20
 }
 
 // zstdBomb builds a valid-looking zstd frame (after the 0x01 snapshot header) whose frame
